@@ -64,4 +64,14 @@ var props = map[string]propDef{
 		Thorough:       budget{Runs: 1200, Chunk: 4, Wall: 40 * time.Minute, PerChunkGrace: 5 * time.Minute},
 		MinimiseBudget: 20 * time.Second,
 	},
+	"C01": {
+		Binary: "dsim-store", Harness: "C01", Level: "exploration",
+		Rule: "each run = one seeded operation history (put fresh/duplicate/empty/near-memtable-size chunks and members of genuine 8-byte-prefix collision pairs, commit, rebase, clean reopen, GC into table files or archives incl. the two-generation protocol, conjoin, reads) on one store configuration (memory view, file-manifest store, journaling store, generational old+new+ghost) with memtable size, conjoin threshold, journal buffer and index batch size drawn per run; every read step drives Get, Has, GetMany, GetManyCompressed, HasMany over stored addresses and absent addresses adjacent to them (last byte, prefix byte, same 8-byte prefix with another suffix) and compares with the chunk model and across paths; IterateAllChunks is compared with the model; a third of the runs also inject EIO into file reads (an error is allowed, wrong bytes never). One evaluation = one read step. A run is non-trivial iff it crossed at least one reopen, GC, conjoin or injected fault; distinct = distinct run seeds among those.",
+		Assumptions: []string{"chunks put but not committed may or may not survive a reopen; chunks unreachable from the committed root may or may not survive a GC", "the memory configuration is chunks.MemoryStorage, not an NBS"},
+		Real:        storeReal, Stub: storeStub, Persistence: "not used (clean restarts only)",
+		ExpectProbes:   []string{"commit_ok", "clean-restart", "gc", "gc-archive", "read-eio", "conjoin"},
+		Quick:          budget{Runs: 400, Chunk: 25, Wall: 150 * time.Second, PerChunkGrace: 120 * time.Second},
+		Thorough:       budget{Runs: 20000, Chunk: 100, Wall: 40 * time.Minute, PerChunkGrace: 5 * time.Minute},
+		MinimiseBudget: 60 * time.Second,
+	},
 }
